@@ -8,7 +8,8 @@ const NAMES: [&str; 3] = ["assert", "debug", "other"];
 const FIELDS: [&str; 3] = ["profilebegin", "profileend", "name"];
 
 /// Prefix shapes: 0 `NAME`, 1 `NAME.FIELD`, 2 `NAME.x.FIELD`, 3 `NAME[FIELD-as-string]`,
-/// 4 `(NAME).FIELD`.
+/// 4 `(NAME).FIELD`, 5 `x.NAME.FIELD` (a field of another table that happens to be called `debug`),
+/// 6 `NAME()`.FIELD … (a call result).
 fn build_prefix(shape: u8, name: usize, field: usize) -> Prefix {
     match shape {
         0 => Prefix::from_name(NAMES[name]),
@@ -23,11 +24,17 @@ fn build_prefix(shape: u8, name: usize, field: usize) -> Prefix {
             StringExpression::from_value(FIELDS[field]),
         )
         .into(),
-        _ => FieldExpression::new(
+        4 => FieldExpression::new(
             Prefix::Parenthese(Box::new(ParentheseExpression::new(Expression::identifier(NAMES[name])))),
             FIELDS[field],
         )
         .into(),
+        5 => FieldExpression::new(
+            FieldExpression::new(Prefix::from_name("x"), NAMES[name]),
+            FIELDS[field],
+        )
+        .into(),
+        _ => FieldExpression::new(Prefix::from(FunctionCall::from_name(NAMES[name])), FIELDS[field]).into(),
     }
 }
 
@@ -38,7 +45,9 @@ fn prefix_text(shape: u8, name: usize, field: usize) -> String {
         1 => format!("{}.{}", NAMES[name], FIELDS[field]),
         2 => format!("{}.x.{}", NAMES[name], FIELDS[field]),
         3 => format!("{}['{}']", NAMES[name], FIELDS[field]),
-        _ => format!("({}).{}", NAMES[name], FIELDS[field]),
+        4 => format!("({}).{}", NAMES[name], FIELDS[field]),
+        5 => format!("x.{}.{}", NAMES[name], FIELDS[field]),
+        _ => format!("{}().{}", NAMES[name], FIELDS[field]),
     }
 }
 
@@ -72,7 +81,7 @@ fn removed_end_to_end(rule: &str, shadowed: [bool; 2], shape: u8, name: usize, f
 /// H-C17-match
 pub fn call_matchers<S: Source>(s: &mut S) {
     let shape = s.any_u8();
-    s.assume(shape < 5);
+    s.assume(shape < 7);
     let name = s.any_usize();
     let field = s.any_usize();
     s.assume(name < 3 && field < 3);
